@@ -151,7 +151,7 @@ PROP = {
     "thm_module": "Tyme.Thm.C10",
     "thm_file": "Tyme/Thm/C10.lean",
     "lean_targets": ["Tyme.Thm.C10"],
-    "audit_files": ["Tyme/Lemmas/Cache.lean", "Tyme/Model/Cache.lean", "Tyme/Model/ObjMemo.lean"],
+    "audit_files": ["Tyme/Lemmas/Cache.lean", "Tyme/Model/Cache.lean", "Tyme/Model/ObjMemo.lean", "Tyme/Model/ProviderLock.lean"],
     "streams": [],
     "ops": c10_ops,
     "extra_checks": [c10_histories],
